@@ -54,9 +54,10 @@ COMMON_ASSUMPTIONS = [
 LEVEL["C01"] = "exploration"
 RULES["C01"] = ("generated timer and DAG benches x driver command sequences, each run on ST, schedule-controlled ST and MT executors; "
                 "times after every call, handler times and pending deadlines compared with a sequential reference interpreter; part threads: the concurrent scheduling workload of C08 (1-4 threads submitting requests around the "
-                "advancing time through every scheduler entry point while the main thread steps): time never decreases, every accepted request fires at its deadline; "
+                "advancing time through every scheduler entry point while the main thread steps): time never decreases, every accepted request fires at its deadline; part bulk: 200-5000 actions with one deadline and one origin "
+                "(global scheduler or one model's context) towards a mailbox of capacity 1-100, plus a second origin and a later action: the step runs all of them, in scheduling order, at exactly the deadline; "
                 "non-trivial = an execution in which simulation time moved and handlers ran; distinct = (bench, handler order, pick sequence) hash")
-sim_plan("C01", ["timer", "dag", "threads"], miri_parts=["timer"])
+sim_plan("C01", ["timer", "dag", "threads", "bulk"], miri_parts=["timer"])
 LEVEL["C03"] = "exploration"
 RULES["C03"] = ("generated DAG benches (plain/map/filter_map connections to models and sinks, capacities 1-3 and 1-16, messages from models, scheduler, "
                 "process_event/process_query/EventSource/QuerySource); per-command multiset of (recipient, uid) handler invocations and sink contents compared with the "
@@ -92,8 +93,8 @@ PLAN["C06"] = {"quick": [job("native", "closed", 4, 300), job("native", "random"
 LEVEL["C07"] = "exploration"
 RULES["C07"] = ("timer benches on small nanosecond lattices (many coinciding deadlines; one-shot, keyed, periodic; driver and model origins); for each (time, target, origin) group the "
                 "processing order must equal the scheduling order (stamp of the accepted request; periodic re-insertion counted at the ClockSync of the previous occurrence); "
-                "non-trivial = an execution containing at least one group of >= 2 same-time same-origin events")
-sim_plan("C07", ["timer"], miri_parts=["timer"])
+                "part bulk: groups of 200-5000 same-time same-origin events (see C01); non-trivial = an execution containing at least one group of >= 2 same-time same-origin events")
+sim_plan("C07", ["timer", "bulk"], miri_parts=["timer"])
 LEVEL["C09"] = "exploration"
 RULES["C09"] = ("timer benches with keyed/auto-keyed one-shot and periodic actions cancelled by the driver between steps, by handlers at earlier times and by earlier same-time same-origin "
                 "events (generator rules R1-R3 make the outcome schedule independent); handler invocations compared with the reference interpreter; non-trivial = at least one cancellation issued")
